@@ -34,8 +34,15 @@ ASSUMPTIONS = ["Python integers; Miller-Rabin with 36 bases for primality (proba
                "answer must not depend on the history of the context"]
 
 
+SWEEP = ("asan224", "asan384", "asan521", "asan377", "asan382", "asan446")
+
+
 def parts(tier):
-    return [dict(part="ep", cfg="asan256", shards=6), dict(part="ep", cfg="asan255", shards=2),
+    extra = []
+    if tier != "quick":
+        for cfg in SWEEP:
+            extra += [dict(part="ep", cfg=cfg, shards=2), dict(part="fp", cfg=cfg, shards=1)]
+    return extra + [dict(part="ep", cfg="asan256", shards=6), dict(part="ep", cfg="asan255", shards=2),
             dict(part="ep", cfg="asan381", shards=4),
             dict(part="fp", cfg="asan256", shards=2), dict(part="fp", cfg="asan255", shards=1),
             dict(part="fp", cfg="asan381", shards=1),
@@ -56,16 +63,20 @@ def field_sqrt(F, a, rng):
     while t % 2 == 0:
         t //= 2
         s += 1
-    while True:
+    for _ in range(400):
         z = F.rand(rng)
         if not F.is_zero(z) and not F.eq(F.pow(z, (q - 1) // 2), F.one):
             break
+    else:
+        raise ArithmeticError("no non-square found: not a field")
     c, x, b, m = F.pow(z, t), F.pow(a, (t + 1) // 2), F.pow(a, t), s
     while not F.eq(b, F.one):
         i, b2 = 0, b
         while not F.eq(b2, F.one):
             b2 = F.mul(b2, b2)
             i += 1
+            if i >= m:
+                raise ArithmeticError("square-root iteration does not converge: not a field")
         e = c
         for _ in range(m - i - 1):
             e = F.mul(e, e)
@@ -76,11 +87,12 @@ def field_sqrt(F, a, rng):
 
 def rand_point(C, rng):
     F = C.F
-    while True:
+    for _ in range(400):
         x = F.rand(rng)
         y = field_sqrt(F, F.add(F.add(F.mul(F.mul(x, x), x), F.mul(C.a, x)), C.b), rng)
         if y is not None:
             return (x, y)
+    raise ArithmeticError("no point found on the model curve")
 
 
 def horner(F, coeffs, x):
@@ -137,6 +149,8 @@ class GF2(object):
             raise ZeroDivisionError("inverse of 0 in GF(2^m)")
         u, v, g1, g2 = a, self.f, 1, 0
         while u != 1:
+            if u == 0 or v == 0:
+                raise ZeroDivisionError("element not invertible: the modulus is reducible")
             j = u.bit_length() - v.bit_length()
             if j < 0:
                 u, v, g1, g2, j = v, u, g2, g1, -j
@@ -419,7 +433,11 @@ def check_field(ob, R, X, nm, v, all_ids):
     if r.caught:
         ob("installs", lambda: (False, "fp_param_set raised an error on the second installation"))
         return
-    p = R.fp_setup()
+    try:
+        p = R.fp_setup()
+    except (ValueError, ArithmeticError) as e:
+        ob("prime", lambda: (False, {"why": "the Montgomery radix is not invertible modulo the installed modulus", "exc": repr(e)}))
+        return
     digs = R.FP_DIGS
     Rr = 1 << (64 * digs)
     note(ctx, "fp_sets", {nm: {"p": hx(p), "bits": p.bit_length(), "p%8": p % 8, "p%9": p % 9}})
@@ -565,8 +583,19 @@ def check_curve(ob, R, X, nm, v, group):
     if r0.caught or L.ep_param_get() != v:
         ob("installs", lambda: (False, "ep_param_set failed on re-installation"))
         return
-    P = R.ep_params()
+    try:
+        P = R.ep_params()
+    except (ValueError, ArithmeticError) as e:
+        if group == "base":
+            ob("field-prime", lambda: (False, {"why": "modulus not usable by the model", "exc": repr(e)}))
+        return
     p, a, b, n, h = P["p"], P["a"], P["b"], P["n"], P["h"]
+    if not is_probable_prime(p, 36) or not is_probable_prime(n, 36):
+        # the models below need a field and a prime order; the failed premise is itself the finding
+        if group == "base":
+            ob("field-prime", lambda: (is_probable_prime(p, 36), {"p": hx(p)}))
+            ob("order-prime", lambda: (is_probable_prime(n, 36), {"r": hx(n)}))
+        return
     F = PrimeField(p)
     E = WCurve(F, a, b, n, h)
     G = (P["gx"], P["gy"])
@@ -634,7 +663,8 @@ def check_curve(ob, R, X, nm, v, group):
                 return False, {"level": level, "field_bits": bits}
             if pairf:
                 return 64 <= level <= bits // 2 + 4, {"level": level, "field_bits": bits}
-            return abs(level - bits / 2.0) <= 4 and level <= n.bit_length() // 2 + 4, {"level": level, "field_bits": bits}
+            # conventional labels: 255 -> 128, 384 -> 192, 521 -> 256
+            return -8 <= level - bits / 2.0 <= 4 and level <= n.bit_length() // 2 + 4, {"level": level, "field_bits": bits}
         ob("security-level", lvl)
         ob("flags", lambda: (not (P["endom"] and P["super"]) and (not P["endom"] or a == 0 or b == 0),
                              {"endom": P["endom"], "super": P["super"]}))
@@ -1017,6 +1047,10 @@ def check_eb(ob, R, X, nm, v, group):
     gco = R.rd_int(g + R.K["off_eb_st_coord"])
     R.free(g)
     n, h = bn_of(R, "eb_curve_get_ord"), bn_of(R, "eb_curve_get_cof")
+    if f.bit_length() - 1 != m or not gf2_irreducible(f):
+        if group == 0:
+            ob("field-irreducible", lambda: (False, {"f": hx(f)}))
+        return
     E = BinCurve(K, a, b)
     G = (gx, gy)
     kb = L.eb_curve_is_kbltz()
@@ -1059,7 +1093,14 @@ def check_ed(ob, R, X, nm, v):
     if r0.caught or L.ed_param_get() != v:
         ob("installs", lambda: (False, "ed_param_set failed"))
         return
-    p = R.fp_setup()
+    try:
+        p = R.fp_setup()
+    except (ValueError, ArithmeticError) as e:
+        ob("field-prime", lambda: (False, {"exc": repr(e)}))
+        return
+    if not is_probable_prime(p, 36):
+        ob("field-prime", lambda: (False, {"p": hx(p)}))
+        return
     K = R.K
 
     def rd(P):
